@@ -1,6 +1,6 @@
 SPECIFICATION Spec
 CONSTANTS
   Threshold = "byLength"
-  Dense = 20000
+  Dense <- DenseAll
   W = 300
 INVARIANT DesignOk
